@@ -87,13 +87,30 @@ Proof.
   inversion H; subst. constructor; auto.
 Qed.
 
-Lemma strip_flag_groups_printable fuel : forall s out,
-  Forall printable s -> strip_flag_groups fuel s = Ok out -> Forall printable out.
+Lemma strip_flag_groups_printable fuel : forall s from out,
+  Forall printable s -> strip_flag_groups fuel s from = Ok out -> Forall printable out.
 Proof.
-  induction fuel as [|f IH]; intros s out Hs H; cbn [strip_flag_groups] in H;
-    destruct (find_flag_group s 0) as [[a b]|]; try discriminate; try (injection H as <-; auto; fail).
+  induction fuel as [|f IH]; intros s from out Hs H; cbn [strip_flag_groups] in H;
+    destruct (find_flag_group s from) as [[a b]|]; try discriminate; try (injection H as <-; auto; fail).
   destruct (remove_group s a b false) as [s'| |] eqn:E; cbn [bind] in H; try discriminate.
   eapply IH; [|exact H]. eapply remove_group_printable; eauto.
+Qed.
+
+Lemma include_vt_aux_printable fuel : forall s, Forall printable s -> Forall printable (include_vt_aux fuel s).
+Proof.
+  induction fuel as [|f IH]; intros s Hs; cbn [include_vt_aux]; auto.
+  destruct s as [|c s']; [constructor|].
+  destruct (prefixb perl_space (c :: s')).
+  - assert (Hrest : Forall printable (skipn 9 (c :: s'))) by (apply Forall_skipn; auto).
+    assert (Hvt : Forall printable space_vt) by (unfold space_vt; cbn; prt).
+    destruct (skipn 9 (c :: s')) as [|d [|x rest']] eqn:Er.
+    + apply Forall_app. split; [exact Hvt|apply IH; constructor].
+    + apply Forall_app. split; [exact Hvt|apply IH; auto].
+    + inversion Hrest as [|? ? Hd Hr2]; subst. inversion Hr2 as [|? ? Hx Hr3]; subst.
+      destruct ((d =? 45) && negb (x =? 93)).
+      * apply Forall_app. split; [exact Hvt|]. apply Forall_app. split; [prt|apply IH; auto].
+      * apply Forall_app. split; [exact Hvt|apply IH; auto].
+  - inversion Hs; subst. constructor; auto.
 Qed.
 
 Lemma dont_use_flags_printable s out : Forall printable s -> dont_use_flags s = Ok out -> Forall printable out.
@@ -122,7 +139,7 @@ Proof.
   eapply remove_outermost_printable; [|exact H].
   eapply dont_use_flags_printable; [|exact E].
   unfold include_vt, use_hex_backslashes.
-  apply replace_all_forall; [apply s2l_printable_space_vt|].
+  apply include_vt_aux_printable.
   apply replace_all_forall; [apply s2l_printable_hex_bs|].
   apply escape_dq_aux_printable. apply use_hex_escapes_printable.
 Qed.
@@ -216,21 +233,29 @@ Proof.
   rewrite <- Hsplit. cbn [length]. rewrite app_length. cbn [length]. lia.
 Qed.
 
-Lemma find_flag_group_bounds s : forall i a b,
-  find_flag_group s i = Some (a, b) -> (i <= a /\ a + 4 <= b /\ b <= i + length s)%nat.
+Lemma find_ufg_bounds rest : forall before i a b,
+  find_ufg before rest i = Some (a, b) -> (i <= a /\ a + 4 <= b /\ b <= i + length rest)%nat.
 Proof.
-  induction s as [|c s IH]; intros i a b H; cbn [find_flag_group] in H.
-  - destruct (flag_group_here 58 []) eqn:E; [apply flag_group_here_len in E; cbn in E; lia|discriminate].
-  - destruct (flag_group_here 58 (c :: s)) as [n|] eqn:E.
-    + injection H as <- <-. apply flag_group_here_len in E. cbn [length] in *. lia.
+  induction rest as [|c rest IH]; intros before i a b H; cbn [find_ufg] in H; [discriminate|].
+  destruct (flag_group_here 58 (c :: rest)) as [n|] eqn:E.
+  - destruct (is_escaped_rev before).
     + apply IH in H. cbn [length]. lia.
+    + injection H as <- <-. apply flag_group_here_len in E. cbn [length] in *. lia.
+  - apply IH in H. cbn [length]. lia.
+Qed.
+
+Lemma find_flag_group_bounds s from a b :
+  (from <= length s)%nat -> find_flag_group s from = Some (a, b) -> (from <= a /\ a + 4 <= b /\ b <= length s)%nat.
+Proof.
+  unfold find_flag_group. intros Hle H. apply find_ufg_bounds in H. rewrite skipn_length in H. lia.
 Qed.
 
 (* every removal of a flag group strictly shortens the text *)
-Lemma remove_flag_group_shorter s a b s' :
-  find_flag_group s 0 = Some (a, b) -> remove_group s a b false = Ok s' -> (length s' < length s)%nat.
+Lemma remove_flag_group_shorter s from a b s' :
+  (from <= length s)%nat ->
+  find_flag_group s from = Some (a, b) -> remove_group s a b false = Ok s' -> (length s' < length s /\ a <= length s')%nat.
 Proof.
-  intros Hf H. apply find_flag_group_bounds in Hf. unfold remove_group in H.
+  intros Hle Hf H. apply find_flag_group_bounds in Hf; auto. unfold remove_group in H.
   destruct (find_group_body_end s b) as [[idx alt]| |] eqn:E; cbn [bind] in H; try discriminate.
   apply find_group_body_end_bounds in E.
   destruct (Nat.ltb (length s) a); try discriminate. destruct (Nat.ltb (idx - 1) b); try discriminate.
@@ -241,19 +266,20 @@ Qed.
 
 (* so the model's fuel (length + 1) is never exhausted: the loop of
    dontUseFlagsForMetaCharacters terminates on every input *)
-Lemma strip_flag_groups_no_hang fuel : forall s, (length s < fuel)%nat -> strip_flag_groups fuel s <> Err err_hang.
+Lemma strip_flag_groups_no_hang fuel : forall s from, (length s < fuel)%nat -> (from <= length s)%nat ->
+  strip_flag_groups fuel s from <> Err err_hang.
 Proof.
-  induction fuel as [|f IH]; intros s Hlen; [lia|]. cbn [strip_flag_groups].
-  destruct (find_flag_group s 0) as [[a b]|] eqn:Ef; [|discriminate].
+  induction fuel as [|f IH]; intros s from Hlen Hfrom; [lia|]. cbn [strip_flag_groups].
+  destruct (find_flag_group s from) as [[a b]|] eqn:Ef; [|discriminate].
   destruct (remove_group s a b false) as [s'| |] eqn:Er; cbn [bind]; try discriminate.
-  - apply IH. pose proof (remove_flag_group_shorter _ _ _ _ Ef Er). lia.
+  - pose proof (remove_flag_group_shorter _ _ _ _ _ Hfrom Ef Er) as [H1 H2]. apply IH; lia.
   - unfold remove_group in Er. destruct (find_group_body_end s b) as [[idx alt]| |] eqn:E; cbn [bind] in Er; try discriminate.
     + destruct (Nat.ltb _ _); try discriminate. destruct (Nat.ltb _ _); discriminate.
     + exfalso. eapply find_group_body_end_no_err; eauto.
 Qed.
 
 Theorem dont_use_flags_terminates s : dont_use_flags s <> Err err_hang.
-Proof. unfold dont_use_flags. apply strip_flag_groups_no_hang. lia. Qed.
+Proof. unfold dont_use_flags. apply strip_flag_groups_no_hang; lia. Qed.
 
 Theorem final_passes_terminates t : final_passes t <> Err err_hang.
 Proof.
@@ -268,7 +294,13 @@ Proof.
   - injection H as H. apply (dont_use_flags_terminates _ (eq_trans E (f_equal Err H))).
 Qed.
 
-(* the crash the property names: an ESCAPED parenthesis followed by ?i: is taken for a flag group *)
-Example escaped_paren_flag_group_crashes :
-  dont_use_flags $"\(?i:x" = Crash crash_index.
+(* the case the property names: an ESCAPED parenthesis followed by ?i: is ordinary text
+   (repaired in /repo, fix: 818337f; before the repair this was Crash crash_index) *)
+Example escaped_paren_is_text :
+  dont_use_flags $"\(?i:x" = Ok $"\(?i:x" /\ dont_use_flags $"a(?i:x|y)b\(?i:z" = Ok $"a(?:x|y)b\(?i:z".
+Proof. split; vm_compute; reflexivity. Qed.
+
+(* an UNBALANCED flag group still runs off the end of the text; the optimiser never prints one
+   (hypothesis on the Join oracle, checked on every Join answer by the correspondence runs) *)
+Example unbalanced_flag_group_crashes : dont_use_flags $"(?i:x" = Crash crash_index.
 Proof. vm_compute. reflexivity. Qed.
